@@ -54,5 +54,4 @@ FINDING_CLASSES = {
     "F13c": _file_data_packet,
     "F13b": _eof_packet,
     "F16": _cancel_eof,
-    "F21": _cancel_eof,
 }
